@@ -59,15 +59,18 @@ Collapse(cs, i, acc) ==
 
 NavErr == [ok |-> FALSE, path |-> <<>>]
 
+HasDotDot(p) == \E i \in DOMAIN Split(Slashes(p)) : Split(Slashes(p))[i] = DotDot
+
 \* The file that `rel', written in file `cur', names.
-\*  - `<std>/...' names the built-in library, verbatim;
+\*  - `<std>/...' names the built-in library, verbatim; the library is not a
+\*    directory to navigate out of: a `..' component is an error;
 \*  - both slash styles separate components;
 \*  - a leading separator means "from the project root" (the directory part
 \*    of nothing), otherwise the directory of `cur' comes first;
 \*  - `.' and empty components are dropped, `..' is resolved, leaving the
 \*    working directory or naming nothing is an error.
 Navigate(cur, rel) ==
-    IF IsStd(rel) THEN [ok |-> TRUE, path |-> rel]
+    IF IsStd(rel) THEN (IF HasDotDot(rel) THEN NavErr ELSE [ok |-> TRUE, path |-> rel])
     ELSE LET r == Slashes(rel)
              relc == Clean(Split(r))
              base == IF r # <<>> /\ r[1] = "/" THEN <<>>
@@ -84,24 +87,37 @@ Canon(p) ==
 
 \* C14 safety: a resolved name cannot leave the working directory
 Confined(p) ==
-    \/ IsStd(p)
-    \/ /\ p # <<>>
+    \/ IsStd(p) /\ ~HasDotDot(p)
+    \/ /\ ~IsStd(p)
+       /\ p # <<>>
        /\ p[1] # "/"
        /\ \A i \in 1..Len(p) : p[i] # "\\"
        /\ \A i \in DOMAIN Split(p) : Split(p)[i] # DotDot
 
 RelativeName(p) == p = <<>> \/ Slashes(p)[1] # "/"
-CleanDir(cur) == Clean(Front(Split(Slashes(cur)))) = Front(Split(Slashes(cur)))
+
+\* the directory of `cur' is spelled with a `.' component (`./main.asm')
+DotInDir(cur) == \E i \in DOMAIN Front(Split(Slashes(cur))) : Front(Split(Slashes(cur)))[i] = Dot
 
 \* ---- as coded (filename_navigate) -----------------------------------------
-\* the directory components of `cur' are taken as they are spelled: `.' and
-\* empty components of `cur' count as directory levels that `..' can remove
+\* The directory components of `cur' are taken as they are spelled, except
+\* that empty components after the first (doubled separators) are dropped:
+\* a `.' component of `cur' counts as a directory level that `..' can remove
+\* (pinned by src/test/file_navigation.rs: ("./main.asm", "../outer.asm") ->
+\* "outer.asm"), and a result keeps the `./' of `cur'.
+CodedDir(cur) ==
+    LET cs == Split(Slashes(cur))
+        kept == {i \in 1..Len(cs) : i = 1 \/ cs[i] # <<>>}
+        \* the kept components in order
+        Pick[k \in 0..Len(cs)] ==
+            IF k = 0 THEN <<>> ELSE IF k \in kept THEN Append(Pick[k - 1], cs[k]) ELSE Pick[k - 1]
+    IN  Front(Pick[Len(cs)])
+
 CodedNavigate(cur, rel) ==
-    IF IsStd(rel) THEN [ok |-> TRUE, path |-> rel]
+    IF IsStd(rel) THEN (IF HasDotDot(rel) THEN NavErr ELSE [ok |-> TRUE, path |-> rel])
     ELSE LET r == Slashes(rel)
              relc == Clean(Split(r))
-             base == IF r # <<>> /\ r[1] = "/" THEN <<>>
-                     ELSE Front(Split(Slashes(cur)))
+             base == IF r # <<>> /\ r[1] = "/" THEN <<>> ELSE CodedDir(cur)
              col == Collapse(base \o relc, 1, <<>>)
              name == Join(col.comps)
          IN  IF relc = <<>> \/ ~col.ok \/ col.comps = <<>>
@@ -119,22 +135,26 @@ Mark(f, i) == 16 * f + i
 
 ExpErr == [ok |-> FALSE, out |-> <<>>, once |-> {}]
 
-\* Declarative: including a file splices its expansion at that point, every
-\* time, unless the file says #once and has been included before (then the
-\* inclusion is empty); an expansion that would contain itself is an error.
-RECURSIVE Exp(_, _, _, _), ExpIncs(_, _, _, _, _, _)
-Exp(G, f, open, once) ==
+\* Including a file splices its expansion at that point, every time, unless
+\* the file says #once and has been entered before (then the inclusion is
+\* empty).  An #include of a file that is being included (it is on the
+\* inclusion stack `open') is a cycle and an error, #once or not: the stack
+\* is looked at first, the #once set on entry of the file.  The root file is
+\* not on the stack: a cycle through the root is met one level later (still
+\* an error, unless the root says #once, which makes the re-entry empty).
+RECURSIVE ExpEnter(_, _, _, _), ExpIncs(_, _, _, _, _, _)
+ExpEnter(G, f, open, once) ==
     IF f \in once THEN [ok |-> TRUE, out |-> <<>>, once |-> once]
-    ELSE IF f \in open THEN ExpErr
-    ELSE ExpIncs(G, f, 1, open \cup {f},
-                 IF G[f].once THEN once \cup {f} ELSE once, <<Mark(f, 0)>>)
+    ELSE ExpIncs(G, f, 1, open, IF G[f].once THEN once \cup {f} ELSE once, <<Mark(f, 0)>>)
 ExpIncs(G, f, i, open, once, acc) ==
     IF i > Len(G[f].incs) THEN [ok |-> TRUE, out |-> acc, once |-> once]
-    ELSE LET r == Exp(G, G[f].incs[i], open, once) IN
-         IF ~r.ok THEN ExpErr
-         ELSE ExpIncs(G, f, i + 1, open, r.once, acc \o r.out \o <<Mark(f, i)>>)
+    ELSE LET t == G[f].incs[i] IN
+         IF t \in open THEN ExpErr
+         ELSE LET r == ExpEnter(G, t, open \cup {t}, once) IN
+              IF ~r.ok THEN ExpErr
+              ELSE ExpIncs(G, f, i + 1, open, r.once, acc \o r.out \o <<Mark(f, i)>>)
 
-Expand(G, root) == LET r == Exp(G, root, {}, {}) IN [ok |-> r.ok, out |-> r.out]
+Expand(G, root) == LET r == ExpEnter(G, root, {}, {}) IN [ok |-> r.ok, out |-> r.out]
 
 \* ---- the machine (parse_and_resolve_includes) -----------------------------
 \* ms: [frames : sequence of [file, pos] -- the recursion of
@@ -207,8 +227,9 @@ MRun(G, ms, onceFirst, fuel) ==
 UnitBits(fn) == CASE fn = "incbin" -> 8 [] fn = "incbinstr" -> 1 [] fn = "inchexstr" -> 4
 
 \* the requested interval [lo, hi) of units; an explicit start must name an
-\* existing unit (tests/incbin/err_start_after_eof.asm: 5 >= 5), the interval
-\* must end inside the file
+\* existing unit (tests/incbin/err_start_after_eof.asm: 5 >= 5), also in an
+\* empty file; the interval must end inside the file; without a range the
+\* whole file is meant (the empty value for an empty file)
 IncRange(len, start, size) ==
     LET lo == IF start < 0 THEN 0 ELSE start
         hi == IF size < 0 THEN len ELSE lo + size IN
